@@ -117,8 +117,12 @@ Init == c \in Cases /\ done = FALSE
 Next == ~done /\ done' = TRUE /\ UNCHANGED c
 Spec == Init /\ [][Next]_vars
 
-FullAudio(s) == << [W |-> 0, ns |-> 1, f |-> FullPacket(s, 0, 0, 0, 1)], [W |-> 1, ns |-> 1, f |-> FullPacket(s, 1, 0, 1, 2)], [W |-> 1, ns |-> 1, f |-> FullPacket(s, 1, 1, 0, 3)],
-                 [W |-> 0, ns |-> 1, f |-> FullPacket(s, 0, 0, 0, 4)], [W |-> 0, ns |-> 1, f |-> FullPacket(s, 0, 0, 0, 5)] >>
+\* with every packet: what the floor of the LAST channel must decode to (posts after unwrapping, table index per bin)
+FloorOf(s, mode) == s.floors[s.maps[s.modes[mode + 1].map + 1].sfloor[1] + 1]
+HalfOf(s, mode) == Pow2(IF s.modes[mode + 1].bf = 1 THEN s.e1 ELSE s.e0) \div 2
+FP(s, mode, lw, nw, salt) == [W |-> s.modes[mode + 1].bf, ns |-> 1, f |-> FullPacket(s, mode, lw, nw, salt),
+                              fit |-> Floor1Fit(s, FloorOf(s, mode), salt + s.ch), yc |-> Floor1Curve(s, FloorOf(s, mode), salt + s.ch, HalfOf(s, mode))]
+FullAudio(s) == << FP(s, 0, 0, 0, 1), FP(s, 1, 0, 1, 2), FP(s, 1, 1, 0, 3), FP(s, 0, 0, 0, 4), FP(s, 0, 0, 0, 5) >>
 \* the same classes and the same residue values, but one classification word per partition instead of one per pair: an identical spectrum through a different layout
 Twin(s) == IF Family = "residue" /\ c.seq THEN [s EXCEPT !.books[3] = SequenceVals] ELSE [s EXCEPT !.residues[1].gbook = 4]
 Audio(s) == IF Family = "residue" THEN FullAudio(s) ELSE IF Len(s.modes) >= 2 /\ s.ch >= 1 /\ s.ch <= 255 /\ \A i \in 1..Len(s.modes) : s.modes[i].map + 1 <= Len(s.maps) /\ \A m \in 1..Len(s.maps) : Len(s.maps[m].sfloor) >= 1 /\ \A j \in 1..Len(s.maps[m].sfloor) : s.maps[m].sfloor[j] + 1 <= Len(s.floors)
